@@ -117,11 +117,11 @@ def run(prog, chk):
     for k, why in EXEMPT_FRESH.items():
         if k in o.used_exempt:
             chk.exempt("R07.1", f"{k[0]}|{k[1]}", why)
-    r072(prog, chk)
-    r073(prog, chk)
-    r074(prog, chk, o, vkeys)
-    r075(prog, chk)
-    r077(prog, chk, o)
+    chk.guard(r072, prog, chk)
+    chk.guard(r073, prog, chk)
+    chk.guard(r074, prog, chk, o, vkeys)
+    chk.guard(r075, prog, chk)
+    chk.guard(r077, prog, chk, o)
 
 
 # ----------------------------------------------------------------------------- R07.2
